@@ -172,6 +172,11 @@ def fault_probe(p):
                 return dict(status="not-reproduced", detail="fault not applicable for this method")
             ocp.solve()
     except Exception as e:
+        if "return_success" in str(e):
+            # Opti::solve raised AFTER the NLP solver ran and reported failure: the NLP was handed to the solver
+            return dict(status="confirmed", failing_input=dict(fault=p["fault"], method=p["method"]),
+                        observed="declared and transcribed without any exception; the NLP was handed to the solver (which then failed: %s)" % str(e)[-120:],
+                        expected="an exception at declaration or at the latest before the solver is called")
         return dict(status="not-reproduced", detail="rejected with %s: %s" % (type(e).__name__, str(e)[:150]))
     return dict(status="confirmed", failing_input=dict(fault=p["fault"], method=p["method"]),
                 observed="declared, transcribed and solved without any exception", expected="an exception at declaration or at the latest in solve()")
@@ -267,3 +272,121 @@ def clone_probe(p):
             if not np.allclose(u, v, rtol=1e-9, atol=1e-9, equal_nan=True):
                 return dict(status="confirmed", failing_input=dict(p, x=xv.tolist()), observed="%s of the cloned OCP differs from the directly declared one" % nm)
     return dict(status="not-reproduced", detail="clones equal directly declared stages")
+
+
+def signal_probe(p):
+    """C17 / C01: a b-spline signal (variable or parameter) together with a plain variable inside the ODE: gap residuals
+    of the real NLP against RK4 with every symbol at its own value"""
+    import casadi as ca
+    from rockit import Ocp, MultipleShooting, SingleShooting
+    from contracts.backend import ufun
+    kind, method = p["kind"], p["method"]
+    ocp = Ocp(T=1.5, t0=0.25)
+    x = ocp.state(2); u = ocp.control(); w = ocp.variable(); q = ocp.parameter(); ocp.set_value(q, 0.7)
+    s = ocp.variable(grid="bspline", order=1) if kind == "variable" else ocp.parameter(grid="bspline", order=1)
+    ocp.set_der(x, ufun("f", 2, [x, u, s, w, q]))
+    N = 2
+    if kind == "parameter":
+        ocp.set_value(s, ca.DM([[0.3, -0.4, 0.9]]))
+    ocp.solver("ipopt")
+    ocp.method((MultipleShooting if method == "MS" else SingleShooting)(N=N, M=1, intg="rk"))
+    with contextlib.redirect_stdout(io.StringIO()):
+        ocp._transcribed
+    opti = ocp._augmented._method.opti
+    _, Xs = ocp.sample(x, grid="control"); _, Us = ocp.sample(u, grid="control"); _, Ss = ocp.sample(s, grid="control")
+    ts, _ = ocp.sample(ocp.t, grid="control")
+    Wv = ocp.value(w); Qv = ocp.value(q)
+    gvec = opti.g if opti.g.numel() else ca.MX.zeros(0, 1)
+    F = ca.Function("F", [opti.x, opti.p], [Xs, Us, Ss, ts, Wv, Qv, gvec])
+    rs = np.random.RandomState(p.get("seed", 0))
+    xv = rs.uniform(0.3, 1.3, size=opti.x.numel())
+    pv = np.array(opti.debug.value(opti.p, opti.value_parameters())).reshape(-1)
+    X, U, S, t, W, Q, g = [np.array(v) for v in F(xv, pv)]
+    xs = ca.MX.sym("x", 2); a = ca.MX.sym("a", 4)
+    f = ca.Function("f", [xs, a], [ufun("f", 2, [xs, a[0], a[1], a[2], a[3]])])
+    t = t.reshape(-1)
+    worst = 0.0
+    xk = X[:, 0]
+    for k in range(N):
+        h = t[k + 1] - t[k]
+        arg = np.array([U.reshape(-1)[k], S.reshape(-1)[k], float(np.array(W).reshape(-1)[0]), float(np.array(Q).reshape(-1)[0])])
+        x0 = X[:, k] if method == "MS" else xk
+        k1 = np.array(f(x0, arg)).reshape(-1); k2 = np.array(f(x0 + h / 2 * k1, arg)).reshape(-1)
+        k3 = np.array(f(x0 + h / 2 * k2, arg)).reshape(-1); k4 = np.array(f(x0 + h * k3, arg)).reshape(-1)
+        xn = x0 + h / 6 * (k1 + 2 * k2 + 2 * k3 + k4)
+        worst = max(worst, float(np.max(np.abs(X[:, k + 1] - xn - (g.reshape(-1)[2 * k:2 * k + 2] if method == "MS" else 0)))))
+        xk = xn
+    if worst > 1e-8:
+        return dict(status="confirmed", failing_input=dict(kind=kind, method=method, x=xv.tolist()),
+                    observed="dynamics of the NLP deviate by %.3g from RK4 evaluated with the signal, the plain variable and the parameter at their own values" % worst)
+    return dict(status="not-reproduced", detail="dynamics agree (max deviation %.2e)" % worst)
+
+
+def spline_probe(p):
+    """C15: one operation of the real BSpline algebra on Bernstein-form operands, evaluated with real CasADi at random
+    coefficients and compared with the same operation on the operands' polynomials"""
+    import casadi as ca
+    from math import comb
+    from rockit.splines.spline import BSpline, BSplineBasis
+    op, P, Q = p["op"], p["p"], p.get("q")
+    rs = np.random.RandomState(p.get("seed", 0))
+    def mk(name, d):
+        c = ca.MX.sym(name, d + 1)
+        return BSpline(BSplineBasis([0] * (d + 1) + [1] * (d + 1), d), c), c
+    def bern(c, d, s):
+        return sum(c[i] * comb(d, i) * s ** i * (1 - s) ** (d - i) for i in range(d + 1))
+    a, ca_ = mk("a", P)
+    syms, vals = [ca_], [rs.uniform(-2, 2, size=P + 1)]
+    w = ca.MX.sym("w")
+    syms.append(w); vals.append(rs.uniform(-2, 2, size=1))
+    b = cb = None
+    if isinstance(Q, int):
+        b, cb = mk("b", Q)
+        syms.append(cb); vals.append(rs.uniform(-2, 2, size=Q + 1))
+    S = np.linspace(0, 1, 9)
+    pa = lambda s: bern(vals[0], P, s)
+    pb = (lambda s: bern(vals[2], Q, s)) if isinstance(Q, int) else None
+    wv = float(vals[1][0])
+    table = {
+        "__add__": (lambda: a + b, lambda s: pa(s) + pb(s)), "__sub__": (lambda: a - b, lambda s: pa(s) - pb(s)),
+        "__mul__": (lambda: a * b, lambda s: pa(s) * pb(s)), "__pow__2": (lambda: a ** 2, lambda s: pa(s) ** 2),
+        "__pow__3": (lambda: a ** 3, lambda s: pa(s) ** 3), "__neg__": (lambda: -a, lambda s: -pa(s)),
+        "__mul__number": (lambda: a * 2.5, lambda s: 2.5 * pa(s)), "__rmul__DM": (lambda: ca.DM(0.5) * a, lambda s: 0.5 * pa(s)),
+        "__rmul__symbol": (lambda: w * a, lambda s: wv * pa(s)), "__add__number": (lambda: a + 1.5, lambda s: pa(s) + 1.5),
+        "__radd__symbol": (lambda: w + a, lambda s: wv + pa(s)), "__rsub__number": (lambda: 2.0 - a, lambda s: 2.0 - pa(s)),
+    }
+    cmp_ops = {"__le__": lambda o: a <= o, "__ge__": lambda o: a >= o, "__lt__": lambda o: a < o, "__gt__": lambda o: a > o, "reflected-le": lambda o: o <= a}
+    try:
+        if op in table:
+            r = table[op][0]()
+            d = r.basis.degree
+            k = [float(x) for x in r.basis.knots]
+            if k != [0.0] * (d + 1) + [1.0] * (d + 1):
+                return dict(status="confirmed", failing_input=dict(op=op, p=P, q=Q), observed="result knots %s degree %d" % (k, d), expected="Bernstein form")
+            cv = np.array(ca.Function("F", syms, [r.coeffs])(*vals)).reshape(-1)
+            got = np.array([bern(cv, d, s) for s in S]); want = np.array([table[op][1](s) for s in S])
+        elif op == "derivative":
+            r = a.derivative()
+            d = r.basis.degree
+            cv = np.array(ca.Function("F", syms, [r.coeffs])(*vals)).reshape(-1)
+            got = np.array([bern(cv, d, s) for s in S])
+            h = 1e-6
+            want = np.array([(pa(s + h) - pa(s - h)) / (2 * h) for s in S])
+        else:
+            other = b if isinstance(Q, int) else (w if Q is None else 2.0)
+            po = pb if isinstance(Q, int) else ((lambda s: wv) if Q is None else (lambda s: 2.0))
+            r = cmp_ops[op](other)
+            # rows lo <= hi ; evaluate hi - lo through the canonical form of the comparison
+            lo, hi = r.dep(0), r.dep(1)
+            dv = np.array(ca.Function("F", syms, [hi - lo])(*vals)).reshape(-1)
+            d = dv.shape[0] - 1
+            got = np.array([bern(dv, d, s) for s in S])
+            sign = 1 if op in ("__le__", "__lt__") else -1
+            want = np.array([sign * (po(s) - pa(s)) for s in S])
+    except Exception as e:
+        return dict(status="confirmed", failing_input=dict(op=op, p=P, q=Q), observed="%s: %s" % (type(e).__name__, str(e)[:300]), expected="the operation is defined for these operands")
+    tol = 1e-5 if op == "derivative" else 1e-7
+    if got.shape != want.shape or np.max(np.abs(got - want)) > tol * (1 + np.max(np.abs(want))):
+        return dict(status="confirmed", failing_input=dict(op=op, p=P, q=Q, coefficients=[v.tolist() for v in vals]),
+                    observed=dict(s=S.tolist(), result_spline=got.tolist()), expected=dict(exact_polynomial=want.tolist()))
+    return dict(status="not-reproduced", detail="result spline equals the exact polynomial at %d points" % len(S))
